@@ -93,10 +93,9 @@ PROP_UNITS = {
                           'a > b > 0) -- proved for the u8 instance of the same macro body by the complete Kani harnesses '
                           'vk_base_gcd_gcd_ext_u8 and vk_gcdo_base_gcd_ext_bound_u8; to_sign_magnitude (Kani group int_primitive); '
                           '<[T]>::fill; mul_dword_in_place (proved in unit int_mul_dword)',
-                          'int_gcd_ops ASSUMES (lib/gcdo_ops_stubs.rs, trusted): the Lehmer routines gcd::gcd_in_place / gcd_ext_in_place '
-                          '(integer/src/gcd/lehmer.rs, NOT verified: g is the gcd, left in rhs[..g_len] resp. lhs/rhs by the flag; '
-                          '|b| in lhs[..b_len] with a*lhs + (sign*|b|)*rhs == g for some a) -- a wrong sign or length returned by '
-                          'lehmer.rs is therefore NOT detected; primitive Gcd::gcd / ExtendedGcd::gcd_ext for Word / DoubleWord '
+                          'int_gcd_ops: the Lehmer routines gcd::gcd_in_place / gcd_ext_in_place (integer/src/gcd/lehmer.rs) are PROVED in the '
+                          'units int_leh_* (lehmer.py) and enter through //@@ SIG of their annotated copies; ASSUMED (lib/gcdo_ops_stubs.rs, '
+                          'trusted): primitive Gcd::gcd / ExtendedGcd::gcd_ext for Word / DoubleWord '
                           '(u8 instance proved by Kani group base_gcd); cmp::cmp_in_place (numeric order of normalized words); '
                           'mul::multiply (proved in unit int_mul_dispatch); scratch memory (allocate_slice_copy / _fill; SIZING not verified); '
                           'lib/repr_stubs.rs (Buffer / Repr)',
